@@ -24,6 +24,8 @@ per channel, per connection list), then asks for round trips:
                           x = foreign connections are not stored, o = load() takes the channels over;
                           prints the observation
     fileload <cfg> <x> <o> <v> [cls]
+    wfopts <id> <automate 0|1> <maps token>
+    autoload <cfg> <own> <ctorLast> <ctorAuto> <ctorMaps|->   load by constructing `Cls(label, …)` where the file is
     inplace <label> <cfg> <k>   child <label> of the current graph does save(); load() in place (k = load keeps its place)
 -/
 
@@ -53,7 +55,7 @@ def init : St := ⟨[], [], none, false, []⟩
 def emptyCore (label cls : Nat) (kind : Kind) : Core :=
   { label, cls, kind, ins := [], outs := [], sigIns := [], sigOuts := [], received := [], running := false,
     failed := false, exec := .none, bodyExec := .none, cached := none, starting := [], inLinks := [],
-    outLinks := [], detached := none, prov := [], refused := [] }
+    outLinks := [], detached := none, prov := [], refused := [], automate := true, maps := 0 }
 
 def parseKind : String → Option Kind
   | "l" => some .leaf | "m" => some .macro | "f" => some .forLoop | "w" => some .workflow | _ => none
@@ -123,7 +125,7 @@ partial def showNode (p : Path) : Node → List String
       | some l => "[" ++ ",".intercalate (l.map showVal) ++ "]"
     let head := s!"N {ps} {c.label} {c.cls} {showKind c.kind} {showBool c.running} {showBool c.failed} " ++
       s!"{showExec c.exec.strip} {showExec c.bodyExec.strip} det={det} start={showL c.starting} prov={showL c.prov} " ++
-      s!"recv={showL c.received} cached={cached}"
+      s!"recv={showL c.received} cached={cached} auto={showBool c.automate} maps={c.maps}"
     let io (l : List DChan) := " ".intercalate (l.map fun d => s!"{d.label}={showVal d.val}/{showBool d.strict}")
     let links := " ".intercalate ((c.inLinks.map fun l => s!"i:{l.1}>{showAddr l.2}") ++
       (c.outLinks.map fun l => s!"o:{showAddr l.1}>{l.2}"))
@@ -276,6 +278,23 @@ def step (s : St) (ws : List String) : St × List String :=
   | ["fileload", w, x, o, vw, cls] =>
     match parseCfg w, parseBool x, parseBool o, parseBool vw, cls.toNat? with
     | some cfg, some x, some o, some vw, some cls => roundTrip s cfg x o vw true (some cls)
+    | _, _, _, _, _ => bad
+  | ["wfopts", id, a, m] =>
+    match id.toNat?, parseBool a, m.toNat? with
+    | some id, some a, some m =>
+      match updRow s id fun k => { k with automate := a, maps := m } with
+      | some s' => (s', [])
+      | none => bad
+    | _, _, _ => bad
+  | ["autoload", w, own, last, a, m] =>
+    -- `Cls(label, automate_execution=a, maps=m)` finds the file the current graph's `save()` wrote
+    match parseCfg w, parseBool own, parseBool last, parseBool a, s.cur with
+    | some cfg, some own, some last, some a, some (n, pp) =>
+      let maps? : Option (Option Nat) := if m = "-" then some none else m.toNat?.map some
+      match maps? with
+      | some maps =>
+        finish s false (autoloadAt cfg last a maps n.core.cls (if own then some none else none) (save pp n))
+      | none => bad
     | _, _, _, _, _ => bad
   | ["inplace", l, w, k] =>
     -- the child labelled <l> of the current graph loads, in place, the state it has just saved
